@@ -86,10 +86,19 @@ func McheckEv(c *TrieCase, st *trie.SlimTrie) (e Ev) {
 	e["psize"] = proto.Size(st)
 	b2, _ := st.Marshal()
 	e["twice"] = b2i(string(b1) == string(b2))
-	if st2, _, _ := c.Build(); st2 != nil {
-		b3, _ := st2.Marshal()
-		e["rebuilt"] = b2i(string(b1) == string(b3))
+	// independent builds from equal input: byte-identical, every time
+	same := true
+	for i := 0; i < 6; i++ {
+		if st2, _, _ := c.Build(); st2 != nil {
+			b3, _ := st2.Marshal()
+			if string(b1) != string(b3) {
+				same = false
+			}
+		} else {
+			same = false
+		}
 	}
+	e["rebuilt"] = b2i(same)
 	if st3, _, _ := Reload(c, st); st3 != nil {
 		b4, _ := st3.Marshal()
 		e["remarshal"] = b2i(string(b1) == string(b4))
